@@ -64,6 +64,12 @@ func (p *prefixedReadSeekCloser) Read(b []byte) (int, error) {
 		n = k
 	}
 
+	if n == len(b) {
+		// do not ask the rest for zero bytes: some readers answer io.EOF to that
+		// while the prefix still holds data
+		return n, nil
+	}
+
 	k, err := p.rest.Read(b[prefBytes:])
 	n += k
 	return n, err
@@ -79,6 +85,10 @@ func (p *prefixedReadSeekCloser) Seek(offset int64, whence int) (int64, error) {
 	_, err := p.prefix.Seek(skipBytes, whence)
 	if err != nil {
 		return 0, fmt.Errorf("seeking bytes: %w", err)
+	}
+
+	if offset == skipBytes {
+		return 0, nil
 	}
 
 	return p.rest.Seek(offset-skipBytes, whence)
